@@ -152,6 +152,10 @@ def gen_death(rng, nwatch, place=None, inflight=True):
         op['arg'] = rng.choice([0, 1, 3, rng.randrange(256), 255])
     elif how == 'sig':
         op['arg'] = rng.choice(TERM_SIGNALS)
+        if rng.random() < 0.1:
+            # real-time signals (default action: terminate); only the first
+            # and the last have a name
+            op['arg'] = rng.choice([34, 35, 50, 64])
     return op
 
 
